@@ -122,7 +122,7 @@ POSITIONS = {  # class -> list of (position name, wrap(child) -> value of nxt, f
 def chain(cls, pos, n, leaf="ok"):
     """input with data-class nesting depth n through position `pos`; also the projected tree"""
     name, wrap, falsy = pos
-    node = {"leaf": leaf}
+    node = {"leaf": leaf} if leaf is not None else {}      # leaf None: the innermost object is empty (all defaults)
     tree = {"cls": True, "cyc": False, "falsy": falsy, "kids": []}
     for _ in range(n - 1):
         w = wrap(node)
@@ -201,6 +201,8 @@ def main():
                         continue
                     data, tree = chain(clsname, pos, depth)
                     add("exact", clsname, pos[0], data, tree, d, "ok")
+                    data, tree = chain(clsname, pos, depth, leaf=None)
+                    add("exact-empty", clsname, pos[0], data, tree, d, "ok")
             for depth in (1, 3, 6):
                 data, tree = chain(clsname, pos, depth)
                 add("exact", clsname, pos[0], data, tree, 0, "ok")
